@@ -394,5 +394,5 @@ func uniq(s []string) []string {
 func TestC06_scan(t *testing.T) {
 	col := ev.Get("C06")
 	col.SetExtra("scan_extractors_offline", len(Registry()))
-	ev.Check(t, col, ev.IntEnv("C06_SCAN_CHECKS", ev.Scale(40, 20)), genC06Scan, propC06Scan)
+	ev.Check(t, col, ev.IntEnv("C06_SCAN_CHECKS", ev.Scale(40, 30)), genC06Scan, propC06Scan)
 }
